@@ -461,7 +461,7 @@ theorem topGetA_append_err (ex : List Sexp) (rs : List Char) (c : LexCore)
         subst h
         simp [topGetA, hh, hs]
 
-theorem runA_bind {α β : Type} (p : Prog α) (f : α → Prog β) (v : View) :
+theorem runA_bind_prog {α β : Type} (p : Prog α) (f : α → Prog β) (v : View) :
     runA (p.bind f) v = match runA p v with
       | (.ret a, v1) => runA (f a) v1
       | (.stop st, v1) => (.stop st, v1) := by
@@ -877,7 +877,7 @@ def SLfor (F : Nat) (Q : SProg Unit) : Prop := ∀ v : View,
 theorem SL_inner (F f : Nat) (hle : f + 1 ≤ F) (ihtop : SLfor F (S.topLoop f)) (P : SProg Sexp) (hP : P.noTop) :
     SLfor F (P.bind (afterExpr f)) := by
   intro v
-  rw [suspendA_bind, SProg.erase_bind, runA_bind]
+  rw [suspendA_bind, SProg.erase_bind, runA_bind_prog]
   cases hs : suspendA P v with
   | some x =>
     obtain ⟨e, κ0, v0⟩ := x
